@@ -13,7 +13,12 @@ re                                             -> like rf, plus seq=<q|p<u>|end,
 x <any|udp|tcp> <udpwire> <tcpwire>            -> ok<tok>|net|eof|other tcp=0|1 probe=0|1
 v <reqId> <reqName> <reqType> <respId> <n> (<name> <type>)*   -> ok|id|count|type|name
 rd <n> <byte>*                                 -> none | id=… tc=… qs=name:type,…   (readMsg)
+xb <any|udp|tcp> <reqId> <hexname> <reqType> <udpraw> <tcpraw>
+                                               -> ok id=… tc=… rc=… q=<hexname>:<type> tcp=0|1 | net|eof|other tcp=0|1
 ```
+`xb` is `Exchange` from the bytes up: a raw is `net`, `eof` or `b<n>:<hex>` (`n` octets were read into a
+buffer that now holds `<hex>`: the reply followed by what was left of the packed request), or `<first>><second>`
+for the two attempts of `exchangeNet`; names travel as the hex of their presentation form.
 A probe is `1`/`0` (succeeded / failed), `r<rcode>` (a response with that RCODE), `e` (an error),
 `z` (nil, nil) or `w.<net>.<udpwire>.<tcpwire>` (a plain upstream; `checkUpstream` of the exchange).
 A wire may be `<first>><second>`: the two attempts of `exchangeNet`; modifiers `sf nx rf` set the RCODE.
@@ -124,6 +129,33 @@ def probedOf : List Ev → List Nat
 def showV : VRes → String
   | .ok => "ok" | .badId => "id" | .badCount => "count" | .badType => "type" | .badName => "name"
 
+def hexVal (c : Char) : Nat :=
+  if '0' ≤ c ∧ c ≤ '9' then c.toNat - 48
+  else if 'a' ≤ c ∧ c ≤ 'f' then c.toNat - 87
+  else if 'A' ≤ c ∧ c ≤ 'F' then c.toNat - 55
+  else 0
+
+def unhex : List Char → List Nat
+  | a :: b :: r => (hexVal a * 16 + hexVal b) :: unhex r
+  | _ => []
+
+def hexDigit (n : Nat) : Char := if n < 10 then Char.ofNat (48 + n) else Char.ofNat (87 + n)
+
+def hex (l : List Nat) : String := String.ofList (l.flatMap fun b => [hexDigit (b / 16), hexDigit (b % 16)])
+
+/-- `net`, `eof` or `b<n>:<hex>`. -/
+def raw1 (s : String) : Raw :=
+  if s == "net" then .netErr
+  else if s == "eof" then .eof
+  else match (s.drop 1).toString.splitOn ":" with
+    | [n, h] => .bytes (unhex h.toList) (nat! n)
+    | _ => .bytes [] 0
+
+def rawWire (s : String) : Wire :=
+  match s.splitOn ">" with
+  | [a, b] => retryWire (raw1 a).wire (raw1 b).wire
+  | _ => (raw1 s).wire
+
 def nameBytes (s : String) : List Nat := s.toList.map Char.toNat
 
 def parseQs : List String → List Question
@@ -210,6 +242,14 @@ def step (s : S) : List String → S × String
     | some m =>
       let qs := m.qs.map fun q => s!"{String.ofList (q.name.map Char.ofNat)}:{q.qtype}"
       (s, s!"id={m.id} tc={showB m.tc} rc={m.rcode} qs={if qs.isEmpty then "-" else ",".intercalate qs}")
+  | ["xb", n, rid, hn, rt, u, t] =>
+    let r := exchange (net n) (nat! rid) { name := unhex hn.toList, qtype := nat! rt } (rawWire u) (rawWire t)
+    let x := match r.1 with
+      | .ok m =>
+        let qs := m.qs.map fun (q : Question) => s!"{hex q.name}:{q.qtype}"
+        s!"ok id={m.id} tc={showB m.tc} rc={m.rcode} q={",".intercalate qs}"
+      | .netErr => "net" | .eof => "eof" | .other => "other"
+    (s, s!"{x} tcp={showB r.2}")
   | _ => (s, "bad-op")
 
 def main : IO Unit := loop step {}
